@@ -80,6 +80,14 @@ def shards(tier, seed):
                 out.append({'kind': 'rdms', 'n_centres': n_centres, 'method': method, 'events': 'ints-unbalanced',
                             'scale': scale})
             out.append({'kind': 'rdms', 'n_centres': n_centres, 'method': method, 'events': 'big-ids'})
+    # integer / float32 typed data and further label kinds, below and above the chunking limit
+    for method in ('euclidean', 'correlation'):
+        for n_centres in (5, 1001):
+            for dt in ('int64', 'int16', 'float32'):
+                out.append({'kind': 'rdms', 'n_centres': n_centres, 'method': method, 'events': 'ints-unbalanced',
+                            'dtype': dt})
+            for ev in ('mixed-case', 'floats'):
+                out.append({'kind': 'rdms', 'n_centres': n_centres, 'method': method, 'events': ev})
     for n_tasks in ([1, 2, 3, 4] + ([5] if tier == 'thorough' else [])):
         for n_jobs in (1, 2, 3):
             out.append({'kind': 'schedules', 'n_tasks': n_tasks, 'n_jobs': n_jobs})
@@ -230,13 +238,20 @@ def judge_rdms(ctx, case, seed):
               'two-conds': [1, 0, 1, 0, 0, 1, 1],
               'big-ids': [100003, 100001, 100002, 100001, 100003, 100003, 100002],
               'distinct-unsorted': [3, 1, 5, 2, 4, 7, 6],
-              'distinct-strings': ['d', 'b', 'f', 'a', 'c', 'g', 'e']}[case['events']]
+              'distinct-strings': ['d', 'b', 'f', 'a', 'c', 'g', 'e'],
+              # condition names with mixed capitalisation: the sorted order of the labels is the code-point order
+              'mixed-case': ['face', 'House', 'body', 'Tool', 'House', 'face', 'Animal'],
+              'floats': [0.5, -1.0, 2.25, -1.0, 0.5, 0.0, 2.25]}[case['events']]
     scale = float(case.get('scale', 1.0))
     n_obs = len(events)
     V = max(n_centres + 10, 40)
     g = rng_for(seed, 'c19data', n_centres)
     data = (np.round(g.normal(size=(n_obs, V)), 3) + np.arange(V)[None, :] * 0.01) * scale
     unit = scale ** 2 if method == 'euclidean' else 1.0      # size of a typical dissimilarity
+    if case.get('dtype'):
+        # integer-typed volumes (counts, raw scanner units): results are float dissimilarities all the same
+        data = np.round(data * 10).astype(case['dtype'])
+        unit = (100.0 if method == 'euclidean' else 1.0) * unit
     if case.get('zero_cols'):
         # masked data: voxels outside the brain are exactly zero in every observation; they are voxels of
         # the searchlight all the same (they enter the channel count and the pattern mean)
@@ -270,13 +285,14 @@ def judge_rdms(ctx, case, seed):
             cols = data[:, neighbors[i]]
             want = ref_rdm(cols.tolist(), events, method)
             got = sl.dissimilarities[i]
-            if len(got) != len(want) or any(not abs(a - b) <= 1e-9 * max(unit, abs(b)) for a, b in zip(got, want)):
+            rtol = 1e-5 if case.get('dtype') == 'float32' else 1e-9      # float32 volumes: single-precision arithmetic
+            if len(got) != len(want) or any(not abs(a - b) <= rtol * max(unit, abs(b)) for a, b in zip(got, want)):
                 ctx.fail(sig + '|value-mismatch', dict(case, centre_no=i),
                          'RDM %d: %r, direct computation on its columns %r' % (i, list(np.round(got, 6)), list(np.round(want, 6))))
                 break
             direct = calc_rdm(Dataset(cols, obs_descriptors={'events': np.array(events)}), method=method,
                               descriptor='events').dissimilarities[0]
-            if not np.allclose(direct, got, rtol=1e-12, atol=1e-12 * unit):
+            if not np.allclose(direct, got, rtol=1e-12 if rtol == 1e-9 else 1e-5, atol=1e-12 * unit):
                 ctx.fail(sig + '|differs-from-calc_rdm', dict(case, centre_no=i), '%r vs %r' % (got, direct))
                 break
         ctx.outcome(tuple(np.round(sl.dissimilarities[0], 6)))
